@@ -83,6 +83,55 @@ def _strlen_of(e, fn, rd, at):
     return None
 
 
+def s2b(prog, ctx, fns):
+    """S2b: the length getline() returns counts the whole line, NUL bytes included; a copy made with strdup() ends at the first NUL.
+    Indexing the copy with that length (copy[n - 1]) reaches behind the copy for a line that contains a NUL byte."""
+    from sa.dataflow import ReachingDefs
+    n = 0
+    for f in fns:
+        gl = f.calls(("getline", "getdelim"))
+        if not gl:
+            continue
+        rd = ReachingDefs(f)
+        linebufs = set(render(c.call_args()[0]).lstrip("&") for c in gl if c.call_args())
+
+        def from_getline(e, at, depth=0):
+            e0 = e.strip()
+            while e0.k in ("ImplicitCastExpr", "ParenExpr", "CStyleCastExpr") and e0.children:
+                e0 = e0.children[0].strip()
+            if e0.k == "CallExpr":
+                return e0.j.get("callee") in ("getline", "getdelim")
+            if e0.k == "BinaryOperator" and e0.j.get("op") == "=":
+                return from_getline(e0.children[1], at, depth + 1)
+            if e0.k == "DeclRefExpr" and e0.j.get("dk") == "local" and depth < 4:
+                ds = [d for d in rd.reaching(e0.j["name"], at) if d.rhs is not None]
+                return bool(ds) and all(from_getline(d.rhs, d.node or at, depth + 1) for d in ds)
+            return False
+        for x in f.walk():
+            if x.k != "ArraySubscriptExpr":
+                continue
+            base = x.children[0].strip()
+            if base.k != "DeclRefExpr" or base.j.get("dk") != "local":
+                continue
+            bd = [d for d in rd.reaching(base.j["name"], x) if d.rhs is not None]
+            if not bd or not all(d.rhs.strip().k == "CallExpr" and d.rhs.strip().j.get("callee") in ("strdup", "strndup") and
+                                 render(d.rhs.strip().call_args()[0]) in linebufs for d in bd):
+                continue
+            idx = x.children[1]
+            vars_ = [v for v in idx.walk() if v.k == "DeclRefExpr" and v.j.get("dk") == "local"]
+            if not vars_:
+                continue
+            n += 1
+            if any(from_getline(v, x) for v in vars_):
+                ctx.fail("S2", "%s: %s indexed with its own length" % (f.name, base.j["name"]), x.where,
+                         "`%s`: the index is the length getline() returned for the whole line, but `%s` is a strdup() copy that ends at the first NUL "
+                         "byte of the line: for a line that contains a NUL byte this reaches behind the copy" % (render(x), base.j["name"]),
+                         key="copy-indexed-by-line-length:%s" % f.name)
+            else:
+                ctx.ok("S2", "%s: %s indexed with its own length" % (f.name, base.j["name"]), x.where, "`%s`: index from strlen() of the copy" % render(x)[:50])
+    return n
+
+
 def s2(prog, ctx, fns, exc):
     tol = {r["key"]: r["reason"] for r in exc["last_char"]}
     n = 0
@@ -752,6 +801,7 @@ def run(prog, ctx):
         ctx.touch(f)
     s1(prog, ctx, fns, exc)
     s2(prog, ctx, fns, exc)
+    s2b(prog, ctx, fns)
     s3(prog, ctx, fns, exc)
     # S4 = C03.M4/M5, S5 = C14 overflow verdicts, S6 = C20 typestate memory errors
     from sa.report import Ctx
@@ -777,7 +827,7 @@ def run(prog, ctx):
     for n in own_rules.LIB_FUNCS:
         if prog.has_fn(n):
             a = own_rules.analyse(prog, n)
-            own_rules.report(ctx, "S6", n, a, only_kinds=("double-free", "use-after-free", "free-after-move", "dangling-out-pointer"))
+            own_rules.report(ctx, "S6", n, a, only_kinds=("double-free", "use-after-free", "free-after-move", "dangling-out-pointer", "null-object"))
     s7(prog, ctx, fns)
     s8(prog, ctx, fns, exc)
     s9(prog, ctx, reach)
